@@ -29,6 +29,14 @@ Transcribed (the code that exists, its quirks included):
                            F-C14-5 (the removal branch removes only atoms flagged `PTM_atom`; the warning still
                            names every atom of the groups).
 
+* the warning record of a failed iteration -> `warnRec` (`_residue_name` -> `residueName`, residue names for the
+                           sorted set of the key, `atomid-atomname` of the atoms of the mutated sets); one record per failed
+                           iteration in `St.wlog`, parallel to `St.warnings`;
+* the processor object  -> `Proc` (no attributes), `Proc.runMolecule`, `Proc.runHistory`.
+
+Every iteration is logged (`IterLog`) with its key, the allowed options, the result, and the residue, induced
+edges, groups and candidate lists it worked on.
+
 Attribute values are strings or `None` (`Option String`); `graph`, `ptm.match` and log records
 below warning level are not modelled.
 -/
